@@ -1,4 +1,4 @@
-"""C06 -- signature changes keep calls bound to the same values (R06.1-R06.6)."""
+"""C06 -- signature changes keep calls bound to the same values (R06.1-R06.7)."""
 from __future__ import annotations
 
 import ast
@@ -17,7 +17,7 @@ EXPLANATION = (
     "but valid call into an internal AssertionError).  R06.3: inside a changer, the call-side mapping drops a component "
     "only under the same `self.index` selection under which the definition side drops the corresponding component "
     "(sibling agreement).  R06.4: the call-site loop analyses every resource, or skips one only on a test of every "
-    "finder name.  R06.5: introduce-parameter (which rewrites no call site) only appends to the parameter list.  R06.6: the reorderer's new parameter list takes its length from the old list (a permutation), not from new_order.  The positional/keyword mapping arithmetic and the changer "
+    "finder name.  R06.5: introduce-parameter (which rewrites no call site) only appends to the parameter list.  R06.6: the reorderer's new parameter list takes its length from the old list (a permutation), not from new_order.  R06.7 (=R14.9): the simplified text on which calls are recognised keeps every f-string prefix's text.  The positional/keyword mapping arithmetic and the changer "
     "pipeline are not decided."
 )
 ASSUMPTIONS = ["alignment rule of the language reference as recorded in sa/grammar.py DEFAULT_ALIGNMENT",
@@ -267,3 +267,8 @@ def check(ctx, res) -> None:
             "every resource of the loop reaches the occurrence analysis" + (" (or is skipped only when none of the finder names occurs in it)" if skipping else "") if ok else
             f"_change_calls can skip a module without analysing it, on a condition that tests {sorted(tested) or 'nothing'} but the finders search for "
             f"{finder_names}: for a constructor change, modules that call C(...) without mentioning __init__ keep their old argument order")
+
+    # ---- R06.7 (=R14.9): call sites are recognised on the simplified text; code inside f-strings must survive there
+    from .c14 import fstring_prefix_rule
+
+    fstring_prefix_rule(ctx, res, "R06.7")
